@@ -2,6 +2,7 @@
 package verifsim
 
 import (
+	"verifsim/backupworld"
 	"verifsim/dbworld"
 	"verifsim/kernel"
 	"verifsim/storeworld"
@@ -115,6 +116,13 @@ var Cases = []Case{
 	concCase("C14", "dbworld-conc", 1, false, orc("linearizable", "deadlock")),
 	concCase("C14", "dbworld-conc-free", 1, true, orc("linearizable", "deadlock")),
 	concCase("C06", "dbworld-conc-free", 1, true, orc("audit-file")),
+	{Prop: "C17", Engine: "backupworld", Weight: 1,
+		Real: []string{"server/backup.go (periodicBackup, doBackup)", "db (real file on tmpfs)", "aws-sdk-go-v2 s3 client (signing, serialisation)", "package time under testing/synctest"},
+		Stub: []string{"S3 endpoint (in-memory bucket as the SDK's HTTPClient)", "goroutine scheduler (baton at database-lock and upload park points)"},
+		Run: func(s *kernel.Sim) Outcome {
+			w := backupworld.Run(s)
+			return Outcome{Trace: w.Trace, Nontrivial: len(w.Bucket.Uploads) > 0, Ops: w.Ops + len(w.Bucket.Uploads)}
+		}},
 	storeCase("C10", "storeworld-ctor", 1, storeworld.RunC10),
 	storeCase("C16", "storeworld-lookup", 1, storeworld.RunC16),
 	liveCase("C11", "storeworld-live", 6, storeworld.LiveOpts{Lookup: true, Expiry: true, SvcFaults: true, CacheFaults: true, Readers: true,
